@@ -1743,21 +1743,40 @@ where
       }
     }
 
+    // A comparison control restricts its target type, so the value has to
+    // match the target as well (RFC 8610 §3.8). A member key is matched by the
+    // map machinery instead.
+    if let (
+      ControlOperator::EQ
+      | ControlOperator::NE
+      | ControlOperator::LT
+      | ControlOperator::LE
+      | ControlOperator::GT
+      | ControlOperator::GE,
+      Type2::Typename { .. },
+    ) = (ctrl, target)
+    {
+      if !self.state.is_member_key {
+        let error_count = self.errors.len();
+        self.visit_type2(target)?;
+        if self.errors.len() != error_count {
+          return Ok(());
+        }
+      }
+    }
+
     match ctrl {
       ControlOperator::EQ => {
         match target {
-          Type2::Typename { ident, .. } => {
-            if is_ident_string_data_type(self.state.cddl, ident)
-              || is_ident_numeric_data_type(self.state.cddl, ident)
-            {
-              return self.visit_type2(controller);
-            }
-          }
+          // The value matched the target type above; it also has to match the
+          // controller
+          Type2::Typename { .. } => return self.visit_type2(controller),
           Type2::Array { .. } => {
             if let Value::Array(_) = &self.cbor {
               self.visit_type2(controller)?;
               return Ok(());
             }
+            self.add_error(format!("expected array, got {:?}", self.cbor));
           }
           Type2::Map { .. } => {
             if let Value::Map(_) = &self.cbor {
@@ -1768,6 +1787,7 @@ where
               self.state.is_ctrl_map_equality = false;
               return Ok(());
             }
+            self.add_error(format!("expected map, got {:?}", self.cbor));
           }
           _ => self.add_error(format!(
             "target for .eq operator must be a string, numerical, array or map data type, got {}",
@@ -1787,6 +1807,20 @@ where
               self.state.ctrl = None;
               return Ok(());
             }
+
+            // Any other target type matched above: the value must not match the
+            // controller as well
+            let error_count = self.errors.len();
+            self.visit_type2(controller)?;
+            if self.errors.len() == error_count {
+              self.add_error(format!(
+                "expected value .ne {}, got {:?}",
+                controller, self.cbor
+              ));
+            } else {
+              self.errors.truncate(error_count);
+            }
+            return Ok(());
           }
           Type2::Array { .. } => {
             if let Value::Array(_) = &self.cbor {
@@ -1795,6 +1829,7 @@ where
               self.state.ctrl = None;
               return Ok(());
             }
+            self.add_error(format!("expected array, got {:?}", self.cbor));
           }
           Type2::Map { .. } => {
             if let Value::Map(_) = &self.cbor {
@@ -1805,6 +1840,7 @@ where
               self.state.is_ctrl_map_equality = false;
               return Ok(());
             }
+            self.add_error(format!("expected map, got {:?}", self.cbor));
           }
           _ => self.add_error(format!(
             "target for .ne operator must be a string, numerical, array or map data type, got {}",
